@@ -55,3 +55,13 @@ Theorem C03_multicall_positions : forall body sigs srvf srv dm entries i,
   = option_map (fun e => Some (usable_id e)) (nth_error (filter expects_answer entries) i).
 Proof. exact batch_positions. Qed.
 Print Assumptions C03_multicall_positions.
+
+(** a single (non-batch) request that expects an answer is answered by exactly one object, which
+    carries its id *)
+Theorem C03_single_reply : forall body sigs srvf srv dm e,
+  results_dumpable body (sv_jsonclass srv) ->
+  truthy e = true -> is_list e = false -> expects_answer e = true ->
+  exists o log, marshaled_dispatch body sigs srvf srv dm (PValue e) = Ok (ROne o, log)
+                /\ reply_id o = Some (usable_id e) /\ wf_obj o = true.
+Proof. exact single_reply. Qed.
+Print Assumptions C03_single_reply.
